@@ -1,3 +1,5 @@
 SPECIFICATION GenSpec
-CONSTANT Apps = {"A", "B", "C", "D", "E"}
+CONSTANTS
+  Apps = {"A", "B", "C", "D", "E"}
+  MaxMarked = 2
 CHECK_DEADLOCK FALSE
